@@ -62,3 +62,27 @@ def evalExpr (cs : List Char) : Option (List Char) :=
     | _ => none
 
 end Odf.XPathLit
+
+namespace Odf.XPathLit
+
+/-- index of the first element of `names` equal to `w`, counted from `i` -/
+def firstIdx (w : List Char) : List (List Char) → Nat → Option Nat
+  | [], _ => none
+  | n :: ns, i => if n = w then some i else firstIdx w ns (i + 1)
+
+/-- outcome of a lookup by name among elements carrying the identifiers `names` (document order): the predicate
+    `[@attr=<xpath_literal v>]` is evaluated on each, the first match is returned.  `error` = the query is not an XPath expression. -/
+inductive Found where
+  | error
+  | nothing
+  | at (i : Nat)
+deriving DecidableEq, Repr
+
+def selectByName (names : List (List Char)) (v : List Char) : Found :=
+  match evalExpr (xpathLiteral v) with
+  | none => .error
+  | some w => match firstIdx w names 0 with
+    | none => .nothing
+    | some i => .at i
+
+end Odf.XPathLit
